@@ -118,6 +118,8 @@ def examine(case):
         elif p.c.state in ('finished', 'won', 'drawn'):
             m = M(p.bibs, p.first_jo if p.first_jo is not None and p.first_jo < len(p.c.heights) else None)
             out.extend(evaluate(p.c, m, p.hist, p.float_heights, p.observers))
+            if case.get('reimport'):
+                out.extend(reimport_check(p))
         else:
             out.extend(undecided(p))
         out.extend(height_drift(p))
@@ -296,7 +298,29 @@ class M(object):
         self.first_jo = first_jo
 
 
+def reimport_check(p):
+    """The decided competition exported WITH its result columns (place, best - documented as recalculated on import) and
+    imported again: wherever the import is decided too, its placings obey the same clauses."""
+    from vlib.lib import call as _call
+    from athlib import HighJumpCompetition
+    m_ = _call(p.c.to_matrix, ['bib', 'highest_cleared'])
+    if m_[0] != 'ret':
+        return []
+    r = _call(HighJumpCompetition.from_matrix, m_[1])
+    if r[0] != 'ret' or r[1].state not in ('finished', 'won', 'drawn'):
+        return []          # (whether an import reproduces the competition at all is C08's clause)
+    fj = p.first_jo if p.first_jo is not None and p.first_jo < len(p.c.heights) else None
+    vs = evaluate(r[1], M([str(b) for b in p.bibs], fj), p.hist, p.float_heights, p.observers)
+    for v in vs:
+        v['sig'] = v['sig'] + ['re-imported-card']
+        v['case'] = dict(v['case'], reimport=True)
+    return vs
+
+
 def check_decided(ctx, p):
+    if p.c.state in ('finished', 'won', 'drawn') and len(p.hist) % 3 == 0 and not p.float_heights:
+        ctx.violations(reimport_check(p))
+        ctx.label('decided-card-re-imported-with-result-columns')
     if p.bad_height:
         ctx.violations(height_drift(p))
     if p.c.state not in ('finished', 'won', 'drawn'):
